@@ -39,6 +39,8 @@ Consume(e) ==
         IF out.k = "reject"
         THEN /\ e.status >= 400 /\ e.status <= 499          \* C05: refused with a 4xx ...
              /\ e.op = ""                                   \*      ... and no handler ran
+        ELSE IF e.p = "other"                               \* C04: a path nothing is registered on
+        THEN e.status = 404 /\ e.op = ""
         ELSE LET s == ServedAt(e.m, out.v) IN
              IF s # {}
              THEN /\ Cardinality(s) = 1                      \* C02 on this table
